@@ -159,7 +159,9 @@ def parse_attrs():
 
 def inject(scratch):
     """Returns a summary dict; raises Undecided on a lost anchor."""
-    summary = {"attr_blocks": 0, "attr_lines": 0, "appended_files": [], "new_files": [], "inserted_lines": 0}
+    summary = {"attr_blocks": 0, "attr_lines": 0, "appended_files": [], "new_files": [], "inserted_lines": 0,
+               "scan": {"kani::assume": 0, "kani::stub(": 0, "kani::stub_verified": 0, "kani::proof_for_contract": 0,
+                        "kani::proof]": 0, "kani::cover!": 0}}
     # 1. attributes
     by_file = {}
     for b in parse_attrs():
@@ -190,6 +192,8 @@ def inject(scratch):
             dst = os.path.join(scratch, rel)
             with open(src) as f:
                 text = f.read()
+            for kw in summary["scan"]:
+                summary["scan"][kw] += text.count(kw)
             if os.path.exists(dst):
                 with open(dst, "a") as f:
                     f.write("\n" + text)
